@@ -50,8 +50,8 @@ func (c detConfig) motionConfig() config.ThermalMotion {
 	}
 }
 
-func (c detConfig) cam() vCam        { return vCam{c.W, c.H, c.FPS} }
-func (c detConfig) interiorN() int   { return (c.W - 2*c.Edge) * (c.H - 2*c.Edge) }
+func (c detConfig) cam() vCam      { return vCam{c.W, c.H, c.FPS} }
+func (c detConfig) interiorN() int { return (c.W - 2*c.Edge) * (c.H - 2*c.Edge) }
 func (c detConfig) interior(y, x int) bool {
 	return y >= c.Edge && y < c.H-c.Edge && x >= c.Edge && x < c.W-c.Edge
 }
